@@ -6,8 +6,8 @@
    independence, module-level state and dict/set iteration order of the real interpreter are covered by the
    differential monitor of harness/p_c19.py only. *)
 From Coq Require Import ZArith QArith List Bool Permutation.
-Require Import WV.model.C19Cache WV.model.C19Names WV.model.C19Pdf WV.model.C19Relayout.
-Require Import WV.proofs.C19_cache WV.proofs.C19_names WV.proofs.C19_pdf WV.proofs.C19_relayout.
+Require Import WV.model.C19Args WV.model.C19Cache WV.model.C19Names WV.model.C19Pdf WV.model.C19Relayout.
+Require Import WV.proofs.C19_args WV.proofs.C19_cache WV.proofs.C19_names WV.proofs.C19_pdf WV.proofs.C19_relayout.
 Import ListNotations.
 
 (* ---- 1. the image cache (get_image_from_uri + options['cache']), all operation histories ----
@@ -163,3 +163,29 @@ Theorem C19_relayout_idempotent_refuted :
   ~ same_layout (layout (after witness)) (layout witness).
 Proof. exact relayout_not_idempotent. Qed.
 Print Assumptions C19_relayout_idempotent_refuted.
+
+(* ---- 6. the caller's argument containers (options['stylesheets'] in Document._build_layout_context) ----
+   render_call env sheets = (the caller's list after the render_call, what the render sees of each sheet: its source and whether its
+   @font-face/@counter-style rules are registered for this render); env = the FontConfiguration/CounterStyle of the
+   render_call (a fresh one per render by default).  The effect of a render_call on the caller's list is the identity ... *)
+Open Scope Z_scope.
+Theorem C19_arguments_are_read_only (env : Z) (sheets : list sheet) : fst (render_call env sheets) = sheets.
+Proof. exact (arguments_are_read_only env sheets). Qed.
+Print Assumptions C19_arguments_are_read_only.
+
+(* ... hence the k-th render_call with the same list object gives what the first gave (all render_calls with fresh environments, or
+   all with the shared one: `alike`), and the list is still the one the caller built *)
+Theorem C19_output_is_history_independent (sheets : list sheet) (e1 : Z) (envs : list Z) :
+  Forall (alike sheets e1) envs ->
+  Forall (fun o => o = snd (render_call e1 sheets)) (snd (render_calls render_call (e1 :: envs) sheets)) /\
+  fst (render_calls render_call (e1 :: envs) sheets) = sheets.
+Proof. exact (output_is_history_independent sheets e1 envs). Qed.
+Print Assumptions C19_output_is_history_independent.
+
+(* filling the caller's list in place breaks both: [file name], two renders with their own font configuration *)
+Theorem C19_arguments_are_read_only_in_place_variant_refuted :
+  fst (render_call_in_place 1 [Raw 7]) = [Parsed 7 1] /\
+  snd (render_calls render_call_in_place [1; 2] [Raw 7]) = [[(7, true)]; [(7, false)]] /\
+  snd (render_calls render_call [1; 2] [Raw 7]) = [[(7, true)]; [(7, true)]].
+Proof. exact in_place_variant_refuted. Qed.
+Print Assumptions C19_arguments_are_read_only_in_place_variant_refuted.
